@@ -659,9 +659,11 @@ class StmtMixin:
         if isinstance(v, VSet):
             return self.enum_set(v, p)
         if isinstance(v, VMap):
-            return v.keys
+            return self.enum_map_keys(v, p)
         if isinstance(v, VRef) and v.cls in self.classes and self.classes[v.cls].box and self.classes[v.cls].box[0] == "set":
             return self.enum_set(self.box_value(p, v), p)
+        if isinstance(v, VRef) and v.cls in self.classes and self.classes[v.cls].box and self.classes[v.cls].box[0] == "dict":
+            return self.enum_map_keys(self.box_value(p, v), p)
         r = self.iter_extra(v, p)
         if r is not None:
             return r
@@ -669,6 +671,26 @@ class StmtMixin:
 
     def iter_extra(self, v, p):
         return None
+
+    def keypos_fn(self, keys: VSeq):
+        sorts = [a.sort() for a in keys.arrs] + list(keys.elem.sorts())
+        return self.ufunc("keypos!" + "_".join(str(x) for x in sorts), sorts, z3.IntSort())
+
+    def enum_map_keys(self, m: VMap, p: Path) -> VSeq:
+        """Iterating a dict: its key sequence enumerates exactly the domain, each key once (dict model assumption).
+        keypos(keys, u) is the position of key u in that sequence (spec function `keypos(it, u)`)."""
+        ks = m.keys
+        if ks is None:
+            raise Unsupported("iteration over an unordered ghost map")
+        kp = self.keypos_fn(ks)
+        j = z3.Int(fresh_name("kj"))
+        u = ks.elem.fresh("ku")
+        p.assume(z3.ForAll([j], z3.Implies(z3.And(0 <= j, j < ks.len),
+                                            z3.And(m.has(ks.at(j)), kp(*ks.arrs, *ks.at(j).comps()) == j))))
+        pos = kp(*ks.arrs, *u.comps())
+        p.assume(z3.ForAll(u.comps(), z3.Implies(m.has(u), z3.And(0 <= pos, pos < ks.len, val_eq(ks.at(pos), u)))))
+        self.assumptions_used.add("dict model: iterating a dict yields exactly its keys, each once (keypos is the position of a key)")
+        return ks
 
     def enum_set(self, s: VSet, p: Path) -> VSeq:
         """An arbitrary duplicate-free enumeration of a finite set (iteration order is unspecified)."""
